@@ -143,7 +143,27 @@ impl<'a> G<'a> {
                         _ => v.push(Node::Raw(self.rng.pick(&GARBAGE).to_string())),
                     }
                 }
-                8 if !selected && self.hostile => v.push(Node::Raw(self.rng.pick(&GARBAGE).to_string())),
+                8 if !selected && self.hostile => {
+                    if self.rng.chance(1, 3) {
+                        // a nested block whose opening line is not well-formed: it still is a block, and its
+                        // .endif closes it, not the branch that is being skipped
+                        let many = format!(".if 1{}", "+1".repeat(260));
+                        let (open, inner, close) = *self.rng.pick(&[
+                            (".if 1 +", "\tldi r16, (", ".endif"),
+                            (".if @0", "\tnop", ".endif"),
+                            (".ifdef", ".else", ".endif"),
+                            ("odd_lbl: .if (((", ".error \"inside\"", ".endif"),
+                            ("#if ?!", "garbage", "#endif"),
+                            (".ifndef 5 5", ".elif", ".endif ; closes the odd block"),
+                            ("MANY", "\t.dw 1", ".endif"),
+                        ]);
+                        v.push(Node::Raw(if open == "MANY" { many } else { open.to_string() }));
+                        v.push(Node::Raw(inner.to_string()));
+                        v.push(Node::Raw(close.to_string()));
+                    } else {
+                        v.push(Node::Raw(self.rng.pick(&GARBAGE).to_string()))
+                    }
+                }
                 9 => v.push(Node::instr("ldi", vec![Opnd::Reg(16 + self.rng.below(16) as u8), Opnd::Expr(E::Lit(self.rng.range(0, 255), 0))])),
                 _ => v.push(self.marker()),
             }
